@@ -61,12 +61,13 @@ func mark(n int) {
 }
 
 type driver struct {
-	run   *vk.Run
-	srv   *vsrv.Server
-	lay   *layout
-	batch int
-	cur   input
-	wsN   int
+	run    *vk.Run
+	srv    *vsrv.Server
+	lay    *layout
+	batch  int
+	cur    input
+	wsN    int
+	failed int
 }
 
 func (d *driver) violation(key, what string) {
@@ -119,14 +120,31 @@ func (d *driver) raw(method, target string, hdr map[string]string, body []byte) 
 		status, _ = strconv.Atoi(string(resp[9:12]))
 	}
 	d.run.Count(fmt.Sprintf("http_status_%dxx", status/100), 1)
-	if bytes.Contains(resp, []byte(sentinelMarker)) {
-		ex := resp
-		if i := bytes.Index(resp, []byte(sentinelMarker)); i >= 0 {
-			ex = resp[max(0, i-40):min(len(resp), i+80)]
-		}
-		d.violation("sentinel-content-served:"+d.cur.Kind, fmt.Sprintf("%s %s answered %d with the content of a file outside the roots: %q", method, target, status, ex))
+	if status == 0 {
+		d.run.Count("no_http_response:"+d.cur.Kind+":"+method, 1)
 	}
+	d.leak(resp, fmt.Sprintf("%s %s answered %d", method, target, status))
 	return status, resp
+}
+
+// leak reports sentinel material in something the server sent: the content of a sentinel
+// file, or (directory listings) the name of one.
+func (d *driver) leak(data []byte, what string) bool {
+	i := bytes.Index(data, []byte(sentinelMarker))
+	if i < 0 {
+		return false
+	}
+	ex := data[max(0, i-60):min(len(data), i+90)]
+	key, how := "sentinel-content-served:", "with the content of a file outside the roots"
+	if bytes.HasPrefix(data[i:], []byte(sentinelNameMarker)) {
+		key, how = "sentinel-name-listed:", "with a listing of a directory outside the roots"
+	}
+	key += d.cur.Kind
+	if d.lay.GroupSymlinks {
+		key = "groups-dir-symlink-followed:content-served"
+	}
+	d.violation(key, fmt.Sprintf("%s %s: %q", what, how, ex))
+	return true
 }
 
 func (d *driver) wsJoin(groupName, username, password, tok string) (string, vclient.Msg) {
@@ -155,8 +173,7 @@ func (d *driver) wsJoin(groupName, username, password, tok string) (string, vcli
 	}
 	for _, e := range c.Events() {
 		b, _ := json.Marshal(e.M)
-		if bytes.Contains(b, []byte(sentinelMarker)) {
-			d.violation("sentinel-content-served:"+d.cur.Kind, fmt.Sprintf("a websocket message carried the content of a file outside the roots: %.300s", b))
+		if d.leak(b, "a websocket message was sent") {
 			break
 		}
 	}
@@ -325,6 +342,12 @@ func (d *driver) send(in input) {
 		maintain = true
 	case "record-username":
 		created := d.record(in.Group, in.S)
+		if len(created) == 0 && in.Phase == "hostile" && (in.S == "" || refValidName(in.S)) && !strings.Contains(in.S, "\x00") {
+			// a username the property admits (NUL apart, which no file name can hold): its
+			// recording has to land in the group's directory, so it has to exist
+			d.violation("recording-outside-group-dir:not-created", fmt.Sprintf("recording for the acceptable username %q in group %s did not produce a file in %s (the file name was not derived from a sanitised username)",
+				in.S, in.Group, filepath.Join(d.lay.Rec, in.Group)))
+		}
 		if len(created) > 0 {
 			result = "created"
 			// keep the directory small: the recorder's own output is not a fixture
@@ -339,9 +362,7 @@ func (d *driver) send(in input) {
 			if desc, err := group.GetDescription(in.S); err == nil {
 				result = "found"
 				b, _ := json.Marshal(desc)
-				if bytes.Contains(b, []byte(sentinelMarker)) {
-					d.violation("sentinel-content-served:"+in.Kind, fmt.Sprintf("group.GetDescription(%q) returned the content of a file outside the groups directory", in.S))
-				}
+				d.leak(b, fmt.Sprintf("group.GetDescription(%q) returned a description", in.S))
 			}
 		case "tag":
 			if _, err := group.GetDescriptionTag(in.S); err == nil {
@@ -374,14 +395,21 @@ func (d *driver) send(in input) {
 		if strings.Contains(in.S, "\\") && status != 0 {
 			d.run.Count(fmt.Sprintf("backslash_name_status:%s:%d", in.Kind, status), 1)
 		}
-		if in.Kind == "api-group" && method == "PUT" && status == 201 && !refValidName(pctDecode(in.S)) && in.Enc == "raw" {
-			d.run.Count("observed:api_put_created_group_with_name_the_group_layer_rejects:"+refClass(pctDecode(in.S)), 1)
+		seen := in.S // the name as the server decodes it
+		if in.Enc == "raw" {
+			seen = pctDecode(in.S)
+		}
+		if in.Kind == "api-group" && method == "PUT" && status == 201 && !refValidName(seen) {
+			d.run.Count("observed:api_put_created_group_with_name_the_group_layer_rejects:"+refClass(seen), 1)
+		}
+		if in.Kind == "api-user" && method == "PUT" && status == 201 && seen != "" && !refValidName(seen) {
+			d.run.Count("observed:api_put_created_user_with_name_the_group_layer_rejects:"+refClass(seen), 1)
 		}
 	} else {
 		d.run.Count("benign_requests", 1)
 		d.control(in, status, resp, result)
 	}
-	if maintain {
+	if maintain && in.Phase == "hostile" {
 		mark(0)
 		if err := d.lay.ensureFixtures(); err != nil {
 			d.run.Inconclusive("cannot restore fixtures: " + err.Error())
@@ -413,7 +441,10 @@ func (d *driver) control(in input, status int, resp []byte, result string) {
 		d.run.Count("benign_ok:"+in.Kind, 1)
 		return
 	}
-	d.run.Inconclusive(fmt.Sprintf("positive control failed: %s: expected %s, got %s (%.200q)", in.String(), in.Expect, got, resp))
+	d.failed++
+	if d.failed <= 2 {
+		d.run.Inconclusive(fmt.Sprintf("positive control failed: %s: expected %s, got %s (%.200q)", in.String(), in.Expect, got, resp))
+	}
 }
 
 func serverChild() {
@@ -437,8 +468,15 @@ func serverChild() {
 		os.Exit(0)
 	}
 	d := &driver{run: run, srv: srv, lay: &lay, batch: a.Batch}
+	benign := true
 	for _, in := range inputs {
-		if in.Kind == "delete-form" && in.Phase == "benign" {
+		if benign && in.Phase != "benign" {
+			// what the benign phase changed on purpose is put back before the hostile phase
+			benign = false
+			mark(0)
+			lay.ensureFixtures()
+		}
+		if in.Kind == "delete-form" && in.Phase == "benign" && in.Expect == "303" {
 			// the file the benign delete removes
 			mark(0)
 			os.WriteFile(filepath.Join(lay.Rec, in.Group, in.S), []byte("FIXTURE-TO-DELETE"), 0o644)
